@@ -112,7 +112,7 @@ def oracle_sig(c, e):
 def run(ck):
     ck.level = 'proof'
     proof_ok, failing = ck.proof_stage('MpVerif.C13.Props', 'MpVerif/C13/Props.lean', 'C13_',
-                                        ['MpVerif/C13/*.lean'], expect_min=9)
+                                        ['MpVerif/C13/*.lean'], expect_min=10)
     ck.log('proof stage: ok=%s failing=%s' % (proof_ok, failing[:8]))
     if ck.tier == 'thorough' and proof_ok:
         bad = ck.leanchecker(['MpVerif.C13.Props'])
@@ -189,7 +189,10 @@ def run(ck):
         open(opsf, 'w').write('\n'.join(ops) + '\n')
         mo = os.path.join(BUILD, 'c13.model.out')
         with open(opsf) as fi, open(mo, 'w') as fo:
-            subprocess.run([drv], stdin=fi, stdout=fo, check=False, timeout=3000)
+            try:
+                subprocess.run([drv], stdin=fi, stdout=fo, check=False, timeout=900 if ck.tier == 'quick' else 2400)
+            except subprocess.TimeoutExpired:
+                ck.add_violation('model-timeout', 'the Lean skeleton did not finish replaying the traces (the generator loops no longer make progress on the recorded oracles)', {'ops': opsf}, found_input=False)
         model_out = open(mo).read().split('\n')
     agree = {}
     corr_bad = []
@@ -306,7 +309,9 @@ def run(ck):
             ratio = float(e[2])
             if fn not in worst or ratio > worst[fn][0]:
                 worst[fn] = (ratio, i)
-            if e[-1] != 'within':
+            # C13 quantifies over tolerances 1e-1 .. 1e-6; larger ones (the generator also feeds ubErr = 1.0 to reach the
+            # `1.0 != ubErr` branch in the correspondence) are outside the property
+            if e[-1] != 'within' and ratio > 1.01 and d['ubErr'] <= 0.1000001:
                 sig = oracle_sig(c, e)
                 oracle_bad[i] = sig
                 hist_cls[sig] = hist_cls.get(sig, 0) + 1
